@@ -161,10 +161,10 @@ class C15(Suite):
     oeq = "obs_eqb15"
     spec = "spec_ok15"
     kf = "kf15"
-    kf_ids = {1: "F-C15-1"}
+    kf_ids = {1: "F-C15-1", 2: "F-C15-2"}
     corr = "Graph.query / Dataset.query, prepareQuery + Graph.query(prepared), SPARQLProcessor.query, evaluate.evalQuery (initBindings), algebra.reorderTriples/analyse, back ends Memory / SimpleMemory / AuditableStore / ReadOnlyGraphAggregate"
-    quick_n = 350
-    thorough_n = 6000
+    quick_n = 300
+    thorough_n = 3000
     timeout_s = 20.0
 
     def __init__(self):
@@ -189,7 +189,10 @@ class C15(Suite):
                 "swap": swap_operands(q, rng),
                 "ren": {"map": ren, "q": rename_ast(q, {int(k): v for k, v in ren.items()})},
                 "init": None,
-                "alt": [t for t in b["default"] if rng.random() < 0.5] + ([[1, 4, 2]] if rng.random() < 0.5 else [])}
+                "dupprefix": rng.random() < 0.08 and "<http://e/" in r_group(q),
+                "alt": None}
+        alt = [t for t in b["default"] if rng.random() < 0.5] + ([[1, 4, 2]] if rng.random() < 0.5 else [])
+        case["alt"] = sorted([list(t) for t in {tuple(t) for t in alt}])
         # initBindings: a variable of the outermost BGP, no sub-query anywhere
         first = q[1][0]
         if first[0] == "bgp" and not has_kind(q, "sub") and rng.random() < 0.7:
@@ -238,10 +241,8 @@ class C15(Suite):
         inv = {w: int(v) for v, w in case["ren"]["map"].items()}
         g1.append(self._q(store, render(dict(b, q=case["ren"]["q"])), ren=inv))
         # (d) prefix spellings
-        body = r_group(b["q"])
-        g1.append(self._q(store, "PREFIX e: <http://e/> SELECT * WHERE " + body.replace("<http://e/", "e:").replace(">", "")
-                          if ">" not in body.replace("<http://e/", "").replace(">", "", body.count("<http://e/")) else text))
-        g1.append(self._q(store, "PREFIX x: <http://e/> PREFIX : <http://e/> SELECT * WHERE " + _prefixed(b["q"], "x:", ":")))
+        g1.append(self._q(store, "PREFIX e: <http://e/> SELECT * WHERE " + _prefixed(b["q"], "e:", "e:")))
+        g1.append(self._q(store, "BASE <http://e/> SELECT * WHERE " + r_group(b["q"]).replace("<http://e/", "<")))
         # (f) prepared query, three evaluations on alternating graphs
         alt_case = dict(b, default=case["alt"], named=[[n, []] for n, _ in b["named"]])
         alt = self.base.build(alt_case)
@@ -267,6 +268,10 @@ class C15(Suite):
                   self._q(store, text, initBindings={Variable(f"v{v}"): term(t)})]
             groups.append(gv)
         groups.append(g3)
+        if case.get("dupprefix"):
+            # two prefixes declared for one namespace, both used
+            groups.append([g1[0], self._q(store, "PREFIX x: <http://e/> PREFIX : <http://e/> SELECT * WHERE "
+                                          + _prefixed(b["q"], "x:", ":"))])
         return groups
 
     def backends(self, b):
@@ -309,6 +314,8 @@ class C15(Suite):
                           + clist([cN(v)]) + " |}")
         alt_case = dict(b, default=case["alt"], named=[[n, []] for n, _ in b["named"]])
         groups.append("{| g_base := " + self.base.coq_case(alt_case) + "; g_vars := []; g_same := 1%N; g_pushed := [] |}")
+        if case.get("dupprefix"):
+            groups.append("{| g_base := " + base + "; g_vars := []; g_same := 1%N; g_pushed := [99%N] |}")
         return clist(groups)
 
     def coq_obs(self, obs):
@@ -333,6 +340,8 @@ class C15(Suite):
             yield dict(case, base=nb)
         if case["init"]:
             yield dict(case, init=None)
+        if case.get("dupprefix"):
+            yield dict(case, dupprefix=False)
         for q in c04.shrink_group(b["q"]):
             nb = dict(b, q=q)
             ren = {int(k): v for k, v in case["ren"]["map"].items()}
